@@ -44,7 +44,7 @@ package replication
 //@   requires w != nil && w.engine != nil && w.engine.Manager != nil && w.engine.Manager.store != nil && w.engine.Manager.nh != nil
 //@   ensures [C05.state.leaderidx] err == nil ==> typeIs(w.engine.Manager.nh.lastReq, fsm.LeaderIndexRequest)
 //@   ensures [C05.state.shard] err == nil ==> cid == tableOf(bytesOf(w.engine.Manager.store.rPair[tkey(w.table)].Value)).ClusterID
-//@   modifies w.engine.Manager.store.rHas, w.engine.Manager.store.rPair, w.engine.Manager.nh.nsync, w.engine.Manager.nh.nstale, w.engine.Manager.nh.lastReq
+//@   modifies w.engine.Manager.store.rHas, w.engine.Manager.store.rPair, w.engine.Manager.nh.nsync, w.engine.Manager.nh.nstale, w.engine.Manager.nh.lastReq, w.engine.Manager.nh.lastAns
 // recover (the leader answered USE_SNAPSHOT): asks the leader for a snapshot of THIS table, saves the
 // stream to a temporary file, and restores THIS table from that file rewound to its beginning
 //@ import snapshot "github.com/jamf/regatta/replication/snapshot"
@@ -89,7 +89,7 @@ package replication
 //@ func (*worker).Start$3
 //@   maypanic
 //@   requires *w != nil && (*w).workerFactory != nil && (*w).engine != nil && (*w).engine.Manager != nil && (*w).engine.Manager.store != nil && (*w).engine.Manager.nh != nil && (*w).engine.Manager.log != nil && (*w).snapshotClient != nil && (*w).log != nil && (*w).recoverySemaphore != nil && (*w).engine.NodeHost != nil && (*w).logClient != nil && (*w).metrics.replicationFollowerIndex != nil && (*w).metrics.replicationLeaderIndex != nil && 0 <= (*w).throttle.speed && (*w).throttle.speed < 5
-//@   modifies (*w).engine.Manager.nh.lastRes, (*w).engine.Manager.nh.lastErr, (*w).engine.Manager.nh.lastCmd, (*w).engine.Manager.nh.nelem, (*w).engine.Manager.nh.nseq, family(G_any_rest), family(G_any_sdata), family(G_any_slen), family(G_any_nrecv), family(G_any_nrec), family(G_any_leaderOf), allelems(uint8), (*w).engine.Manager.nh.nsync, (*w).engine.Manager.nh.nstale, (*w).engine.Manager.nh.lastReq, (*w).engine.NodeHost.lastRes, (*w).engine.NodeHost.lastErr, (*w).engine.NodeHost.lastCmd, (*w).engine.NodeHost.nelem, (*w).engine.NodeHost.nseq, allfields(worker), allfields(replicationThrottle), family(CH_len), world.clock, (*w).engine.Manager.store.rHas, (*w).engine.Manager.store.rPair, (*w).engine.Manager.store.nwk, (*w).engine.Manager.store.wVal, (*w).engine.Manager.store.wVer, (*w).engine.Manager.store.wDel, (*w).engine.Manager.store.wPrevHas, (*w).engine.Manager.store.wPrev
+//@   modifies (*w).engine.Manager.nh.lastRes, (*w).engine.Manager.nh.lastErr, (*w).engine.Manager.nh.lastCmd, (*w).engine.Manager.nh.nelem, (*w).engine.Manager.nh.nseq, family(G_any_rest), family(G_any_sdata), family(G_any_slen), family(G_any_nrecv), family(G_any_nrec), family(G_any_leaderOf), allelems(uint8), (*w).engine.Manager.nh.nsync, (*w).engine.Manager.nh.nstale, (*w).engine.Manager.nh.lastReq, (*w).engine.Manager.nh.lastAns, (*w).engine.NodeHost.lastRes, (*w).engine.NodeHost.lastErr, (*w).engine.NodeHost.lastCmd, (*w).engine.NodeHost.nelem, (*w).engine.NodeHost.nseq, allfields(worker), allfields(replicationThrottle), family(CH_len), world.clock, (*w).engine.Manager.store.rHas, (*w).engine.Manager.store.rPair, (*w).engine.Manager.store.nwk, (*w).engine.Manager.store.wVal, (*w).engine.Manager.store.wVer, (*w).engine.Manager.store.wDel, (*w).engine.Manager.store.wPrevHas, (*w).engine.Manager.store.wPrev
 //@   before replication.(*worker).do assert [C15.gate] (*w).leased.v != 0
 // the session used for proposing is derived, on every poll, from the shard the table currently points at
 //@   before replication.(*worker).do assert [C05.session] session == noopS(id) && leaderIndex == idx
